@@ -992,8 +992,8 @@ impl Debug for ScmpTracerouteReplyMessageView {
 pub struct ScmpUnknownMessageView([u8]);
 gen_view_impl!(ScmpUnknownMessageView, ScmpUnknownMessageLayout);
 impl ScmpUnknownMessageView {
-    gen_field_read_and_write!(
-        message_type,
+    gen_field_read!(message_type, ScmpUnknownMessageLayout::TYPE_RNG, u8);
+    gen_unsafe_field_write!(
         set_message_type,
         ScmpUnknownMessageLayout::TYPE_RNG,
         u8
